@@ -14,7 +14,7 @@ from .cfun import GenError
 
 FORMATTER_CONSTS = ["LOG_LEVEL_PREFIX_PADDING", "THREAD_ID_PREFIX_PADDING", "MISC_PADDING", "MAX_LOG_LINE_PREFIX_SIZE",
                     "AWS_DATE_TIME_STR_MAX_LEN", "AWS_THREAD_ID_T_REPR_BUFSZ"]
-LOGGING_CONSTS = ["MAXIMUM_NO_ALLOC_LOG_LINE_SIZE", "AWS_LL_COUNT"]
+LOGGING_CONSTS = ["MAXIMUM_NO_ALLOC_LOG_LINE_SIZE", "AWS_LL_COUNT", "AWS_LOG_SUBJECT_STRIDE_BITS", "AWS_PACKAGE_SLOTS"]
 ERRORS = ["AWS_ERROR_INVALID_ARGUMENT", "AWS_ERROR_UNKNOWN", "AWS_ERROR_SHORT_BUFFER"]
 FMT_NAMES = ["fmtLevel", "fmtThread", "fmtSubject", "fmtSeparator", "fmtNewline"]
 
@@ -121,6 +121,97 @@ def format_strings(fn_node):
     return res
 
 
+def _replace(n, pred, make):
+    """copy of the AST with every node satisfying pred replaced by make(node)"""
+    if isinstance(n, dict):
+        if pred(n):
+            return make(n)
+        return {k: _replace(v, pred, make) for k, v in n.items()}
+    if isinstance(n, list):
+        return [_replace(x, pred, make) for x in n]
+    return n
+
+
+def _synthetic(name, ret, params, expr):
+    ps = [{"kind": "ParmVarDecl", "name": pn, "type": {"qualType": pt}} for pn, pt in params]
+    return {"kind": "FunctionDecl", "name": name, "type": {"qualType": f"{ret} ({', '.join(pt for _, pt in params)})"},
+            "inner": ps + [{"kind": "CompoundStmt", "inner": [{"kind": "ReturnStmt", "inner": [expr]}]}]}
+
+
+def subject_lookup(repo, inc):
+    """the integer skeleton of s_get_log_subject_info_by_id (logging.c): range guard, slot index, index within the slot and
+    the bound test against the slot's count, each translated by gen/cfun.py from the expression found in the AST; the
+    pointer part (slot table, &list[index]) is checked to have the expected shape and is modelled by hand"""
+    tu = f'#include "{os.path.join(repo, "source", "logging.c")}"\n'
+    nodes = cfun.dump_functions(tu, "s_get_log_subject_info_by_id", inc)
+    if "s_get_log_subject_info_by_id" not in nodes:
+        raise GenError("s_get_log_subject_info_by_id not found in logging.c")
+    fn = nodes["s_get_log_subject_info_by_id"]
+    smax = None
+    for o in _ast(tu, "S_MAX_LOG_SUBJECT", inc):
+        if o.get("kind") == "VarDecl" and o.get("name") == "S_MAX_LOG_SUBJECT" and o.get("inner"):
+            smax = o["inner"][0]
+    if smax is None:
+        raise GenError("S_MAX_LOG_SUBJECT with an initialiser not found in logging.c")
+    body = [c for c in fn["inner"] if c["kind"] == "CompoundStmt"][0]["inner"]
+    kinds = [c["kind"] for c in body]
+    if kinds != ["IfStmt", "DeclStmt", "DeclStmt", "DeclStmt", "IfStmt", "ReturnStmt"]:
+        raise GenError(f"s_get_log_subject_info_by_id changed its shape: {kinds}")
+    decls = [c["inner"][0] for c in body[1:4]]
+    if [d.get("name") for d in decls] != ["slot_index", "subject_index", "subject_slot"]:
+        raise GenError("s_get_log_subject_info_by_id: unexpected locals " + str([d.get("name") for d in decls]))
+    names = lambda n: {x for x in re.findall(r'"name": "(\w+)"', json.dumps(n))}
+    if not {"s_log_subject_slots", "slot_index"} <= names(decls[2]):
+        raise GenError("subject_slot is no longer s_log_subject_slots[slot_index]")
+    if not {"subject_list", "subject_index", "subject_slot"} <= names(body[5]) or '"opcode": "&"' not in json.dumps(body[5]):
+        raise GenError("the result is no longer &subject_slot->subject_list[subject_index]")
+    for k in (0, 4):
+        if "NullToPointer" not in json.dumps(body[k]["inner"][1]) or len(body[k]["inner"]) != 2:
+            raise GenError("a guard of s_get_log_subject_info_by_id no longer returns NULL")
+    guard2 = cfun.FnTranslator._strip(body[4]["inner"][0])
+    if guard2.get("opcode") != "||" or cfun.FnTranslator._strip(guard2["inner"][0]).get("opcode") != "!" or \
+            "subject_slot" not in names(guard2["inner"][0]):
+        raise GenError("second guard is no longer `!subject_slot || <bound test>`")
+    is_smax = lambda n: n.get("kind") == "DeclRefExpr" and n.get("referencedDecl", {}).get("name") == "S_MAX_LOG_SUBJECT"
+    is_count = lambda n: n.get("kind") == "MemberExpr" and n.get("name") == "count"
+    count_ref = lambda n: {"kind": "DeclRefExpr", "type": {"qualType": "unsigned long"},
+                           "referencedDecl": {"kind": "ParmVarDecl", "name": "count", "type": {"qualType": "unsigned long"}}}
+    bound = guard2["inner"][1]
+    if not any(is_count(x) for x in _iter(bound)):
+        raise GenError("the bound test no longer reads subject_slot->count")
+    parts = [
+        ("s_subject_too_big", "_Bool", [("subject", "unsigned int")],
+         _replace(body[0]["inner"][0], is_smax, lambda n: {"kind": "ParenExpr", "type": smax["type"], "inner": [smax]})),
+        ("s_subject_slot", "unsigned int", [("subject", "unsigned int")], decls[0]["inner"][0]),
+        ("s_subject_index", "unsigned int", [("subject", "unsigned int")], decls[1]["inner"][0]),
+        ("s_subject_index_rejected", "_Bool", [("subject_index", "unsigned int"), ("count", "unsigned long")],
+         _replace(bound, is_count, count_ref)),
+    ]
+    enum_names = set()
+    for p in parts:
+        cfun.collect_enum_names(p[3], enum_names)
+    cfun.collect_enum_names(smax, enum_names)
+    enums = constants(os.path.join(repo, "source", "logging.c"), sorted(enum_names), inc) if enum_names else {}
+    out = []
+    for name, ret, params, expr in parts:
+        try:
+            text, info = cfun.FnTranslator(_synthetic(name, ret, params, expr), name, lambda c: None, enums, fuel=4).translate()
+        except GenError as e:
+            raise GenError(f"s_get_log_subject_info_by_id / {name}: {e}")
+        out.append(text)
+    return "\n".join(out)
+
+
+def _iter(n):
+    if isinstance(n, dict):
+        yield n
+        for v in n.values():
+            yield from _iter(v)
+    elif isinstance(n, list):
+        for x in n:
+            yield from _iter(x)
+
+
 def lean_bytes(b):
     return "[" + ", ".join(str(x) for x in b) + "]"
 
@@ -170,6 +261,8 @@ def generate(repo, cfg_inc):
     for nm, (f, k) in zip(FMT_NAMES, fmts):
         out.append(f"def {nm} : List UInt8 := {lean_bytes(f)}   -- {f!r}")
     out.append("")
+    out.append("/-! integer skeleton of `s_get_log_subject_info_by_id` (logging.c): range guard, slot, index in the slot, bound test -/")
+    out.append(subject_lookup(repo, inc))
     out.append("end AwsVerif.Gen.Log\n")
     meta = dict(consts={**cf, **cl, **ce}, levels=[l.decode() for l in levels], fmts=[f.decode() for f, _ in fmts])
     return "\n".join(out), meta
